@@ -40,6 +40,8 @@ def run(repo: Repo, rep, tier: str):
     c05.raw_inverse_paths(repo, rep, "C02", "R8")
     c10.inverse_pairs(repo, rep, "C02", "R8")
     c11.pack_unpack(repo, rep, "C02", "R9")
+    from . import c12
+    c12.pack_pairs(repo, rep, "C02", "R10", which=("SMII",))
 
 
 # ------------------------------------------------------------------------------------ R1
